@@ -284,3 +284,22 @@ prop("C05",
      level_note="Trusted: harness/fsrc and the fragmenting conn wrapper. Left-over tool goroutines end through the tool's own reconnect/abort path against a listener that closes at once.",
      assumptions=["+CONTINUE is only answered to a PSYNC that names the source's run id and a real offset (as a master does)",
                   "the announced run id is compared case-sensitively; only the keywords are case-folded"])
+
+prop("C07",
+     title="Parallel full sync restores every key exactly once into the right database",
+     timing=True,
+     quick=[{"re": "^TestC07$", "checks": 1200, "shards": 4}],
+     thorough=[{"re": "^TestC07$", "checks": 120000, "shards": 12, "timeout": 1700}],
+     rule="generated RDB (0-6 dbs in any order from 0..15, 0-6 keys each, every classic encoding, lua scripts, aux/resizedb/module-aux) x parallel 1..8 x "
+          "target.db in {-1,0,3} x db/key/slot(sync only)/lua filters x key_exists x pre-existing target keys x RESTORE or element route x an injected "
+          "error reply for one key x a schedule script: the model target (loopback TCP) holds every connection's next command at a gate; a scheduler "
+          "waits until all workers have connected, then releases one waiting connection at a time, chosen by the generated sequence, once all open "
+          "connections are waiting. Real DbSyncer.syncRDBFile / dbRestorer.restoreRDBFile. Oracle at return time: every record that passes the reference "
+          "filter is in its source db (or target.db) with the source value, restored exactly once, nothing else written, existing keys untouched under "
+          "ignore, SCRIPT LOAD count == scripts passing filter.lua; busy key under none or an injected error => sync returns an error / restore mode "
+          "aborts. Non-trivial: parallel>=2, writes in >=3 dbs over >=2 connections. Distinct = hash of (case, schedule, release order).",
+     technique="property-based testing (rapid) with a generated schedule script driving a gated model target (controlled interleaving of worker connections); model-based oracle over keyspace and command log",
+     level_text="Generated inputs x configurations x command-level interleavings chosen by the generator; which worker takes which entry is up to the Go runtime (observed in the log, not controlled).",
+     level_note="Trusted: harness/mredis, the gate scheduler, the reference filter predicates. Chunked hashes under parallel>1 are not generated here (cost); their route is covered single-connection in C02.",
+     assumptions=["keys are unique per database (and across databases when target.db is fixed): an RDB cannot hold a key twice",
+                  "a key never carries both IDLE and FREQ hints (Redis saves one or the other)"])
